@@ -512,14 +512,14 @@ func TestC18Exhaustive(t *testing.T) {
 		// "a new list of length n holds n zero bits ... for every n": one list of more than 2^32 bits (512 MiB of
 		// untouched zero pages), spot-checked around the 2^32 boundary (index arithmetic narrower than int)
 		ct.guard(func() {
-			n := 1<<32 + 4096
+			n := big(32, 4096)
 			bl := utils.NewBitList(n)
 			if bl.Len() != n {
 				failf(ct, "C18", "bitlist-model", BLCase{New: n}, "NewBitList(%d).Len() = %d", n, bl.Len())
 			}
-			for _, idx := range []int{1<<32 + 5, 1<<32 - 1, 1 << 32, 1<<31 + 7, n - 1} {
+			for _, idx := range []int{big(32, 5), big(32, -1), big(32, 0), big(31, 7), n - 1} {
 				bl.SetBit(idx, true)
-				for _, probe := range []int{idx, idx - 1<<32, idx - 1<<31, idx &^ (1 << 32), 5, 0, 4095} {
+				for _, probe := range []int{idx, idx - big(32, 0), idx - big(31, 0), idx &^ big(32, 0), 5, 0, 4095} {
 					if probe < 0 || probe >= n {
 						continue
 					}
@@ -544,6 +544,8 @@ func TestC18Exhaustive(t *testing.T) {
 			lens = append(lens, 1<<uint(p)+d)
 		}
 	}
+	// ... and lists of 1 to 4 MiB (a slice view assembled in parallel chunks, a size-gated fast path)
+	lens = append(lens, 1<<20-1, 1<<20, 1<<20+8, 1<<20+33, 1<<23-8, 1<<23, 1<<23+8, 1<<23+32, 1<<23+40, 1<<23+72, 1<<23+104, 1<<23+1000, 1<<24+40, 3<<22+104, 5<<21+72, 1<<25+72)
 	parallelFor(16, 16, func(w int) {
 		if ct.Failed() {
 			return
@@ -580,7 +582,7 @@ func TestC18Exhaustive(t *testing.T) {
 			failf(ct, "C18", "bitlist-model", BLCase{New: lens[w]}, "the byte views of the lists of length %d, %d, ... did not complete within 120 s (they take microseconds)", lens[w], lens[w]+16)
 		}
 	})
-	st.Class("byte views of every length 0..8300 and around 2^14..2^17")
+	st.Class("byte views of every length 0..8300, around 2^14..2^17, and of 16 lengths between 2^20 and 2^25+72")
 	// a slow consumer: the channel view delivers the whole sequence at whatever pace it is read
 	ct.guard(func() {
 		pause := 2500 * time.Millisecond
